@@ -623,9 +623,11 @@ impl<'a> TypeConverter<'a> {
             return;
         }
 
-        // Take ownership of the entity
-        let prev = self.owners.insert(created, (owner, name.to_string()));
-        assert!(prev.is_none());
+        // Take ownership of the entity; if it already has an owner (the same
+        // type exported again under another name), the first owner keeps it
+        self.owners
+            .entry(created)
+            .or_insert_with(|| (owner, name.to_string()));
     }
 
     fn component_type(&mut self, name: Option<&str>, id: wasm::ComponentTypeId) -> Result<WorldId> {
